@@ -141,7 +141,8 @@ func (g *gen) insStmt() Stmt {
 			default:
 				r.ID = VInt(g.id())
 				if g.cfg.AutoInc && g.rng.Intn(2) == 0 {
-					r.ID = VInt(1 + int64(g.rng.Intn(12)))
+					// close to table.maxPK (a handful of auto-generated keys): below, equal, just above
+					r.ID = VInt(1 + int64(g.rng.Intn(7)))
 				}
 			}
 		}
@@ -290,6 +291,12 @@ func scripted() []struct {
 			stmt(Event{Sid: 0, Stmts: []Stmt{{Kind: "ins", Mode: "insert", Rows: []InsRow{{V: VInt(7), S: n}}}}}),
 			stmt(Event{Sid: 1, Stmts: []Stmt{{Kind: "ins", Mode: "insert", Rows: []InsRow{{V: VInt(8), S: n}}}}}),
 			commit(1), commit(0)}},
+		// explicit keys around table.maxPK: equal to it after its row was deleted, one below, one above
+		{Cfg{AutoInc: true, MaxLen: 2}, []Event{
+			{Act: "auto", Stmts: []Stmt{{Kind: "ins", Mode: "insert", Rows: []InsRow{{V: VInt(1), S: n}, {V: VInt(2), S: n}, {V: VInt(3), S: n}}}}},
+			del(0, 3), ins(0, "insert", 3, VInt(9), n), ins(0, "upsert", 3, VInt(9), n), del(0, 2), ins(0, "insert", 2, VInt(9), n),
+			ins(0, "insert", 4, VInt(9), n), ins(0, "nothing", 4, VInt(8), n), ins(0, "upsert", 6, VInt(7), n),
+			{Act: "auto", Stmts: []Stmt{{Kind: "ins", Mode: "insert", Rows: []InsRow{{V: VInt(5), S: n}}}}}}},
 	}
 }
 
